@@ -23,11 +23,11 @@ import (
 
 // verdict of comparing the implementation with the reference on one (formula, variant).
 type verdict struct {
-	Kind   string   // "" ok | list | count | error:<class> | panic | engine
-	Want   []string // reference entities
-	Got    []string // listed entities
-	Count  int
-	Detail string
+	Kind       string   // "" ok | list | count | error:<class> | panic | engine
+	Want       []string // reference entities
+	Got        []string // listed entities
+	Count      int
+	Detail     string
 	nonTrivial bool
 }
 
@@ -182,6 +182,9 @@ type c20Run struct {
 }
 
 func filterObj(f *F) any {
+	if f == nil || f.Op == "all" {
+		return nil
+	}
 	var o any
 	_ = json.Unmarshal([]byte(f.JSON()), &o)
 	return o
@@ -202,7 +205,7 @@ func (c *c20Run) report(ctx context.Context, s *site, t *c20Task, f *F, vd verdi
 			return
 		}
 	}
-	tooMany := st.shrinks >= 400
+	tooMany := st.shrinks >= 20000
 	st.shrinks++
 	st.mu.Unlock()
 	min, mvd := f, vd
@@ -268,7 +271,7 @@ func (c *c20Run) formulas(as atomSet) []*F {
 	fs := depth2(as.all)
 	fs = append(fs, families(as.core10)...)
 	if c.thorough {
-		fs = append(fs, depth3only(as.core6)...)
+		fs = append(fs, depth3only(as.core10[:8])...)
 	}
 	return fs
 }
@@ -323,6 +326,8 @@ func runC20() int {
 					s.close()
 				}
 			}()
+			const recycle = 60
+			done := 0
 			localNT := map[string]bool{}
 			localAll := map[string]bool{}
 			localEval := map[string]int64{}
@@ -354,6 +359,14 @@ func runC20() int {
 					return
 				}
 				t := tasks[n]
+				if done++; done%recycle == 0 {
+					// pgsim caches parsed statements by SQL text and every query here is
+					// a new text: drop the clones now and then to bound memory
+					for k, s := range sites {
+						s.close()
+						delete(sites, k)
+					}
+				}
 				s := sites[t.hi]
 				if s == nil {
 					var err error
@@ -415,7 +428,7 @@ func runC20() int {
 	}
 	rule := "fixed histories (back-dated/future/tied timestamps, reverts, metadata added/overwritten/deleted on accounts and transactions, 1–3 segment addresses, 3 assets, zero/negative balances, metadata-only accounts) built through the real controller on pgsim × per resource EVERY formula a, ¬a, a∧b, a∨b over the full atom set (every supported field×operator of the property statement with 1–3 values: exact/partial/prefix addresses, $in, metadata match/$exists/$in, balance[asset] and balance comparisons, dates, reverted, reference, id, log type) plus the families ¬(a∨b), a∧(b∨c), a∨(b∧¬c), ¬(a∧¬b) over a reduced 10-atom set"
 	if c.thorough {
-		rule += " plus EVERY formula of depth 3 over a 6-atom set"
+		rule += " plus EVERY formula of depth 3 (¬f, f∧g, f∨g with f, g of depth ≤ 2) over an 8-atom set"
 	}
 	rule += " × current state and points in time (effective and insertion date, volumes grouped by 0..2 segments); List* must equal the entities selected by an independent Go evaluator over the reference ledger ($not = set complement), Count* must equal the number of listed entities. $like and the undocumented `updated_at` field are outside the property statement and not enumerated"
 	return r.Finish(ev.Coverage{
